@@ -12,7 +12,7 @@ import numpy as np
 from vf import gen, hist, repo_root
 from vf.zygote import Client
 
-STEPS = ["call", "call", "call", "edit_efth", "edit_dir", "edit_freq", "partition_other", "partition_transposed",
+STEPS = ["call", "call", "call", "edit_efth", "edit_dir", "edit_freq", "edit_dir_via_coords", "edit_freq_via_coords", "edit_values_inplace", "partition_other", "partition_transposed",
          "partition_same_size", "unknown_stat", "crsd_other", "reader", "attr_lookup", "call_on_copy", "dataset_accessor_touch"]
 
 
@@ -119,9 +119,9 @@ def one(ctx, rng, xr, wavespectra, attrs, cl, samples):
 
 def classify(trace, obs, use_ds, why):
     steps = set(t.split("!")[0] for t in trace)
-    if use_ds and steps & {"edit_efth", "edit_dir", "edit_freq"} and obs["name"] not in ("ptm3", "ptm4"):
+    if use_ds and steps & {"edit_efth", "edit_dir", "edit_freq", "edit_dir_via_coords", "edit_freq_via_coords", "edit_values_inplace"} and obs["name"] not in ("ptm3", "ptm4"):
         return "dataset-accessor-bound-to-stale-efth"
-    if not use_ds and "edit_dir" in steps:
+    if not use_ds and steps & {"edit_dir", "edit_dir_via_coords"}:
         return "memoised-direction-width-survives-coordinate-edit"
     if why and "attrs" in str(why):
         return "global-attribute-table-autovivified"
@@ -203,6 +203,14 @@ def do_step(step, rng, xr, wavespectra, attrs, obj, f, th, lnames, lsizes, sampl
         obj["dir"] = new
     elif step == "edit_freq":
         obj["freq"] = np.asarray(obj["freq"].values) * float(rng.choice([0.5, 1.1, 2.0]))
+    elif step == "edit_dir_via_coords":
+        # in-place coordinate update that leaves the efth variable object untouched
+        obj.coords["dir"] = (np.asarray(obj["dir"].values) + float(rng.choice([180.0, 45.0, 7.5]))) % 360.0
+    elif step == "edit_freq_via_coords":
+        obj.coords["freq"] = np.asarray(obj["freq"].values) * float(rng.choice([0.5, 1.25, 2.0]))
+    elif step == "edit_values_inplace":
+        v = (obj["efth"] if is_ds else obj).values
+        v[...] = v * float(rng.uniform(0.3, 2.5))
     elif step in ("partition_other", "partition_transposed", "partition_same_size"):
         nf, nd = obj.sizes["freq"], obj.sizes["dir"]
         if step == "partition_transposed":
